@@ -121,6 +121,10 @@ pub fn compare_tree(rep: &mut Report, text: &str, family: &str) -> (Outcome, Opt
             rep.violation("C04/as_ast-differs-from-parse", json!({"expression": text}));
         }
     }
+    // the Display of a tree is its pretty Debug form (what `jp --ast` prints)
+    if ast.to_string() != format!("{:#?}", ast) {
+        rep.violation("C04/ast-display-is-not-pretty-debug", json!({"expression": text}));
+    }
     if got == canon(&want) {
         rep.count(&format!("agree/{}", family));
         return (Outcome::Agree, Some(got));
